@@ -48,12 +48,12 @@ fn scratch() -> std::path::PathBuf {
 }
 
 /// Names the subject passes to getenv while the probe corpus is processed.
-fn discover_env(file: &std::path::Path, log: &str) -> Option<BTreeSet<String>> {
-    let out = scratch().join(format!("ltrace-{log}.txt"));
+fn discover_env(file: &std::path::Path, log: &str, profile: &str) -> Option<BTreeSet<String>> {
+    let out = scratch().join(format!("ltrace-{profile}-{log}.txt"));
     let st = Command::new("ltrace")
         .args(["-f", "-L", "-x", "getenv", "-o"])
         .arg(&out)
-        .arg(exe("release"))
+        .arg(exe(profile))
         .args(["child", "records", file.to_str()?, "0", "1", "0"])
         .env("FPVERIF_LOG", log)
         .stdout(std::process::Stdio::null())
@@ -115,6 +115,61 @@ fn discover_fs(file: &std::path::Path, log: &str) -> Option<Vec<String>> {
     Some(calls)
 }
 
+fn programs_under(file: &std::path::Path, name: &str, value: &str) -> Option<Vec<Option<String>>> {
+    let o = Command::new(exe("release")).args(["child", "programs", file.to_str()?]).env(name, value).stderr(std::process::Stdio::null()).output().ok()?;
+    if !o.status.success() {
+        return None;
+    }
+    Some(String::from_utf8_lossy(&o.stdout).lines().map(|l| serde_json::from_str::<Option<String>>(l).ok().flatten()).collect())
+}
+
+fn value_is_data(file: &std::path::Path, inputs: &[String], name: &str) -> Vec<Violation> {
+    const BENIGN: &str = "qzq/Qzq";
+    let mut out = vec![];
+    let Some(base) = programs_under(file, name, BENIGN) else { return out };
+    for hostile in ["x\" (system \"id\") \"", "a\\", "q\nq)(", "é~a;#|"] {
+        let Some(got) = programs_under(file, name, hostile) else { continue };
+        for (k, (b, g)) in base.iter().zip(got.iter()).enumerate() {
+            let problem = match (b, g) {
+                (Some(b), Some(g)) => match (crate::prog::Prog::read(b), crate::prog::Prog::read(g)) {
+                    (Ok(pb), Ok(pg)) => {
+                        let skel = |p: &crate::prog::Prog| p.forms.iter().map(|f| f.skeleton()).collect::<Vec<_>>();
+                        let strs = |p: &crate::prog::Prog| {
+                            let mut v = vec![];
+                            for f in &p.forms {
+                                let mut ns = vec![];
+                                f.strings(&mut ns);
+                                v.extend(ns.into_iter().map(|n| n.as_str().unwrap_or("").to_string()));
+                            }
+                            v
+                        };
+                        if skel(&pb) != skel(&pg) {
+                            Some(format!("the program's structure differs from the one emitted with {name}={BENIGN:?}"))
+                        } else if strs(&pb).iter().zip(strs(&pg).iter()).any(|(x, y)| x != y && x.replace(BENIGN, hostile) != *y) {
+                            Some("a string literal changed other than by carrying the value".to_string())
+                        } else {
+                            None
+                        }
+                    }
+                    (Ok(_), Err(e)) => Some(format!("the emitted text does not read as Scheme: {e}")),
+                    _ => None,
+                },
+                (Some(_), None) | (None, Some(_)) => None, // acceptance depending on the environment is C15's subject
+                (None, None) => None,
+            };
+            if let Some(p) = problem {
+                out.push(Violation::new(
+                    format!("C04:environment-value-reaches-the-program-as-code:{name}"),
+                    format!("input {:?} compiled with the environment variable {name}={hostile:?} (which the library reads): {p}", inputs.get(k).map(|s| s.as_str()).unwrap_or("?")),
+                    json!({"kind": "environment-value", "variable": name, "value": hostile, "input": inputs.get(k)}),
+                ));
+                break;
+            }
+        }
+    }
+    out
+}
+
 /// Re-run this property's own check as a child under a variation; returns (signature, text).
 fn rerun_inner(ctx: &Ctx, setting: &str, envs: &[(&str, &str)], cwd: Option<&std::path::Path>) -> Vec<(String, String)> {
     let sroot = scratch().join(format!("root-{}", setting.chars().filter(|c| c.is_ascii_alphanumeric()).take(24).collect::<String>()));
@@ -163,9 +218,13 @@ pub fn run(ctx: &Ctx) {
     let mut names = BTreeSet::new();
     let have_ltrace = tool("ltrace");
     if have_ltrace {
-        for log in ["off", "trace"] {
-            if let Some(n) = discover_env(&file, log) {
-                names.extend(n);
+        // the checks that run the debug build as well discover on both binaries
+        let profiles: &[&str] = if matches!(ctx.id.as_str(), "C03" | "C17") && exe("debug").exists() { &["release", "debug"] } else { &["release"] };
+        for profile in profiles {
+            for log in ["off", "trace"] {
+                if let Some(n) = discover_env(&file, log, profile) {
+                    names.extend(n);
+                }
             }
         }
     }
@@ -180,6 +239,15 @@ pub fn run(ctx: &Ctx) {
                     json!({"kind": "environment", "variable": n, "value": v}),
                 ));
             }
+        }
+    }
+    // 1b. (C04) the *value* of a variable the library reads is data: a value full of Scheme
+    // syntax must give the program that a harmless value of the same kind gives, string literals
+    // aside, and the only string literals that change are the ones carrying the value
+    if ctx.id == "C04" {
+        for n in &names {
+            reruns += 2;
+            found.extend(value_is_data(&file, &inputs, n));
         }
     }
     // 2. file system / working directory
